@@ -204,7 +204,9 @@ GetFantasy ==
 \* loss.backward() through a prediction made with detach_test_caches(False): the hooks empty the strategy's memo
 Backward ==
   /\ Room /\ Exact /\ mode = "eval" /\ ps # <<>> /\ ps[1].hooked
-  /\ ps' = <<[ps[1] EXCEPT !.mean = {}, !.covar = FALSE, !.hooked = FALSE, !.cxb = "-"]>>
+  \* (InterpolatedPredictionStrategy registers no clear_cache_hook on its caches: a backward pass leaves them in place)
+  /\ ps' = IF Family = "kiss" THEN <<[ps[1] EXCEPT !.hooked = FALSE]>>
+            ELSE <<[ps[1] EXCEPT !.mean = {}, !.covar = FALSE, !.hooked = FALSE, !.cxb = "-"]>>
   /\ UNCHANGED <<mode, pv, dv, kern, vs, initd, updated>> /\ served' = {}
   /\ Rec([a |-> "Backward"])
 
